@@ -83,14 +83,14 @@ def judge(ctx, cases, impl, model):
 
 def run(ctx):
     g = G(ctx.seed)
-    cases = gen_cases(g, 250 if ctx.tier == 'quick' else 4000, reps=6 if ctx.tier == 'quick' else 30)
+    cases = gen_cases(g, 900 if ctx.tier == 'quick' else 4000, reps=6 if ctx.tier == 'quick' else 30)
     impl, model = ctx.both(cases)
     judge(ctx, cases, impl, model)
     for c in cases[:2]:
         ctx.sample({'book': c.describe()['book_file'][:400], 'N': c.max_depth, 'longest_chain': c.meta['height']})
     # through the CLI: --maxdepth / HR_MAXDEPTH / [Resolver] MaxDepth
     apps = []
-    for _ in range(40 if ctx.tier == 'quick' else 400):
+    for _ in range(150 if ctx.tier == 'quick' else 400):
         n = g.r.randint(1, 12)
         length = max(0, n + g.r.choice([-1, 0, 0, 1]))
         book = g.chain_book(length, exact=True, cycle=g.r.choice([0, 0, 1, 2]) if length else 0)
